@@ -189,3 +189,7 @@ Definition brun (c : ctor) (ops : list bop) : bresult := brun_from (binit c) ops
 Definition z_of_digits (neg : bool) (ds : list N) : Z :=
   let n := fold_left (fun acc d => acc * 10 + d) ds 0 in
   if neg then Z.opp (Z.of_N n) else Z.of_N n.
+
+(* helpers for the re-encoding round trip (C13): decoded items as payloads *)
+Definition item_ok_b (i : tlv_item) : bool := match i with TOk _ _ => true | TErr _ => false end.
+Definition item_payload_b (i : tlv_item) : payload := match i with TOk k v => PTlv k v | TErr _ => PBytes [] end.
